@@ -240,6 +240,9 @@ class Defs:
                 self.defs.setdefault(t["dest"]["l"], []).append(("call", bi, None, t))
 
     def single(self, local):
+        if 1 <= local <= self.fn.argc:
+            # an argument is defined at entry as well: an explicit assignment is never its only definition
+            return None
         d = [x for x in self.defs.get(local, []) if not self._is_partial(x)]
         if len(d) == 1:
             return d[0]
